@@ -358,8 +358,15 @@ func decodeType(fold []byte, state *stateDecode) (*decoder, []byte, error) {
 
 		// every element takes at least one byte: an array cannot be longer than
 		// the data it comes with (do not allocate what a length field claims)
-		if state.limit > 0 && decItem.Type.Size() > 0 && n > state.limit {
-			return nil, nil, fmt.Errorf("array length %d exceeds the size of the data", n)
+		if state.limit > 0 && decItem.Type.Size() > 0 {
+			// (nested arrays multiply: count the leaves)
+			leaves := uint64(n)
+			for t := decItem.Type; t.Kind() == reflect.Array && leaves <= uint64(state.limit); t = t.Elem() {
+				leaves *= uint64(t.Len())
+			}
+			if leaves > uint64(state.limit) {
+				return nil, nil, fmt.Errorf("array of %d elements exceeds the size of the data", leaves)
+			}
 		}
 
 		vtype := reflect.ArrayOf(n, decItem.Type)
